@@ -43,7 +43,8 @@ TEXT = {'C01': {'design_ref': 'DESIGN.md §4 C01',
          'level_text': 'Systematic single-fault injection: every well-formed seed (minimal, maximal, random subsets) for every command crossed with every '
                        "fault of the statement's classes (required member removed, truncation at every offset, each key duplicated, every head non-minimal at "
                        'every wider width, every container indefinite, every other CBOR type in place of each value, each bounded member one past its limit), '
-                       'the observed status compared with the class table; plus all unsupported command bytes.',
+                       'the observed status compared with the class table; plus all unsupported command bytes; plus double faults (required parameters removed and an '
+                       'encoding-level fault on top, which must stay InvalidCbor).',
          'technique': 'runtime monitoring: systematic fault enumeration with a status-class oracle at the decode boundary'},
  'C06': {'design_ref': 'DESIGN.md §4 C06',
          'level_note': "Trusted base: the harness's independent model (harness/src/cbor.rs, schema.rs, resp.rs, reference layouts in the monitors) as a "
@@ -119,7 +120,7 @@ TEXT = {'C01': {'design_ref': 'DESIGN.md §4 C01',
          'level_note': "Trusted base: the harness's independent model (harness/src/cbor.rs, schema.rs, resp.rs, reference layouts in the monitors) as a "
                        'transcription of the specifications; rustc/cargo; the dependency versions pinned by the lock file. Held = no violation on the '
                        'executions observed; inputs outside the enumerated domains and samples are not covered.',
-         'level_text': 'Offline checker over recorded logs: each of the 9 feature builds records a transcript of the same common-member corpus; the driver '
+         'level_text': 'Offline checker over recorded logs: each of the 10 feature builds records a transcript of the same common-member corpus; the driver '
                        'compares them line by line; each line is also judged against the model.',
          'technique': 'runtime monitoring: cross-build transcript comparison (offline log checker) + reference model'},
  'C17': {'design_ref': 'DESIGN.md §4 C17',
